@@ -124,17 +124,17 @@ func fmaLayers(tier string) []Layer {
 	}
 	// F1: digit-exhaustive triples
 	{
-		kxy := 1
+		kxy, exy := 1, int64(1)
 		if thorough {
-			kxy = 2
+			kxy, exy = 2, 0 // all 2-digit coefficients at one exponent: (184)² × 904 × 24 ≈ 7·10^8 cases
 		}
-		xs := append(DVals(kxy, 1, true, 34, 0), specials(34)...)
+		xs := append(DVals(kxy, exy, true, 34, 0), specials(34)...)
 		us := append(DVals(2, 2, true, 34, 0), specials(34)...)
 		precs := []uint32{1, 2, 3, 4}
 		layers = append(layers, Layer{
 			Name:   "F1-digits",
 			Units:  len(xs) * len(xs),
-			Bounds: fmt.Sprintf("x,y in ±D(%d)×10^[-1..1] ∪ {±0,±Inf} (%d values), u in ±D(2)×10^[-2..2] ∪ {±0,±Inf} (%d values), prec 1..4, 6 modes, no aliasing, fresh receiver", kxy, len(xs), len(us)),
+			Bounds: fmt.Sprintf("x,y in ±D(%d)×10^[-e..e] (e=1 quick, 0 thorough) ∪ {±0,±Inf} (%d values), u in ±D(2)×10^[-2..2] ∪ {±0,±Inf} (%d values), prec 1..4, 6 modes, no aliasing, fresh receiver", kxy, len(xs), len(us)),
 			Run: func(c *Ctx, u int) {
 				x, y := xs[u/len(xs)], xs[u%len(xs)]
 				for _, uu := range us {
